@@ -23,6 +23,10 @@ func (_ ValueString) Kind() ValueKind { return StringValueKind }
 func (self ValueString) Display() (string, *VmInterrupt) { return self.Inner, nil }
 
 func (self ValueString) IsEqual(other Value) (bool, *VmInterrupt) {
+	// values of different kinds may meet where the static type is `any` (inside an option, an any-object)
+	if other.Kind() != self.Kind() {
+		return false, nil
+	}
 	otherStr := other.(ValueString).Inner
 	selfStr := self.Inner
 
